@@ -31,6 +31,19 @@ CHECKS = {
         ".binfile is exercised through the CLI in C09/C13, not here.",
    technique="TLA+ denotational spec of the directives; TLC BFS + simulation generate programs; "
              "replayed into the real two-pass assembler; TLC trace acceptor compares image/symbols"),
+ "C10": dict(
+   category="model_checking",
+   text="Cond.tla holds the reference (RefCond precedence climbing; RefRun: exactly the selected branches, "
+        "malformed/unterminated = error) and the shipped control flow with its defects behind switches. "
+        "TLC checks on every statement sequence up to 7 (903k programs) that the repaired machine equals "
+        "the reference and the shipped one differs only through named deviations; then every structure "
+        "up to the bound and one program per enumerated condition (all 7 operators, !, defined(), defines, "
+        "symbols, parentheses, malformed) is assembled by the real code and TLC classifies each observation.",
+   design_ref="DESIGN.md 4 C10",
+   note="Trusted: renderer in nv/props/c10.py, image reader. A second .else in one block and !!x are not "
+        "enumerated (the property does not settle them). Conditions only use labels defined earlier.",
+   technique="TLA+ reference + implementation-shaped machine model-checked by TLC; TLC-enumerated programs "
+             "replayed into the real assembler; TLC trace acceptor with three-way verdict"),
 }
 
 NOT_YET = "machinery for this property is not built yet in this revision (planned in DESIGN.md section 8)"
